@@ -219,7 +219,7 @@ CHECKS = {
     "C01": {
         "level": "fault_enumeration",
         "tests": [
-            {"pkg": "clusterx", "run": "^TestC01_Cluster$", "quick": 160, "thorough": 8400, "shards": {"quick": 5, "thorough": 14}, "shrinktime": "20s"},
+            {"pkg": "clusterx", "run": "^TestC01_Cluster$", "quick": 160, "thorough": 8400, "shards": {"quick": 5, "thorough": 14}, "shrinktime": "20s", "max_per_process": 150},
         ],
         "floors": {"election_triggered": 0.05},
         "rule": "generated programs of 8-30 steps over a cluster of 3 or 5 real storage nodes (+0-1 spare) and the real coordinator ShardController, all in one process and connected by a harness-owned wire: client writes (put / conditional put / delete / delete-range, each with a unique marker record) and reads sent to the node the client believes to be leader (current, remembered or arbitrary), bursts of 2-4 concurrent operations, isolate / cut link / heal, graceful node restart, node stop/start (minority), 'node unavailable' notifications to the coordinator, coordinator restart from the stored metadata, holding a node's next NewTerm response, late re-delivery of any coordination request sent so far (duplicates, messages of superseded elections), node swap to the spare, settle pauses; WAL segments of 1 KiB..64 KiB so rollovers and truncations cross segments. At the end everything is healed and restarted, a fresh coordinator elects, a final write is issued and the ensemble catches up. Every message, metadata store and client invoke/return is recorded in one ordered history. Oracle (C01): every acknowledged write's marker is in the final leader's log (exactly once) and the final leader's database equals the in-order application of its own log to an empty database (decoded dump comparison). Non-trivial: >=1 acknowledged write and >=1 of {election triggered, restart, partition, swap, coordinator restart}.",
@@ -228,7 +228,7 @@ CHECKS = {
     "C02": {
         "level": "exploration",
         "tests": [
-            {"pkg": "clusterx", "run": "^TestC02_Cluster$", "quick": 160, "thorough": 8400, "shards": {"quick": 5, "thorough": 14}, "shrinktime": "20s"},
+            {"pkg": "clusterx", "run": "^TestC02_Cluster$", "quick": 160, "thorough": 8400, "shards": {"quick": 5, "thorough": 14}, "shrinktime": "20s", "max_per_process": 150},
         ],
         "floors": {"election_triggered": 0.05},
         "rule": "generated programs of 8-30 steps over a cluster of 3 or 5 real storage nodes (+0-1 spare) and the real coordinator ShardController, all in one process and connected by a harness-owned wire: client writes (put / conditional put / delete / delete-range, each with a unique marker record) and reads sent to the node the client believes to be leader (current, remembered or arbitrary), bursts of 2-4 concurrent operations, isolate / cut link / heal, graceful node restart, node stop/start (minority), 'node unavailable' notifications to the coordinator, coordinator restart from the stored metadata, holding a node's next NewTerm response, late re-delivery of any coordination request sent so far (duplicates, messages of superseded elections), node swap to the spare, settle pauses; WAL segments of 1 KiB..64 KiB so rollovers and truncations cross segments. At the end everything is healed and restarted, a fresh coordinator elects, a final write is issued and the ensemble catches up. Every message, metadata store and client invoke/return is recorded in one ordered history. Oracle (C02): the committed log of the final leader is the candidate linearization: no request appears twice; a request refused before its WAL append never appears; each acknowledged response equals what the reference fold yields at its log position; real-time order of non-overlapping writes is respected; every successful read equals the state after some committed prefix inside its real-time window (a read at a node whose term was already superseded in the metadata store may be older, but must still match a committed prefix). Non-trivial: as C01 plus >=1 burst of concurrent operations.",
@@ -237,7 +237,7 @@ CHECKS = {
     "C03": {
         "level": "exploration",
         "tests": [
-            {"pkg": "clusterx", "run": "^TestC03_Cluster$", "quick": 160, "thorough": 8400, "shards": {"quick": 5, "thorough": 14}, "shrinktime": "20s"},
+            {"pkg": "clusterx", "run": "^TestC03_Cluster$", "quick": 160, "thorough": 8400, "shards": {"quick": 5, "thorough": 14}, "shrinktime": "20s", "max_per_process": 150},
             {"pkg": "clusterx", "run": "^TestC03_Follower$", "quick": 600, "thorough": 20000, "shards": {"quick": 4, "thorough": 14}, "shrinktime": "20s"},
         ],
         "floors": {"election_triggered": 0.05},
@@ -247,7 +247,7 @@ CHECKS = {
     "C04": {
         "level": "exploration",
         "tests": [
-            {"pkg": "clusterx", "run": "^TestC04_Cluster$", "quick": 160, "thorough": 8400, "shards": {"quick": 5, "thorough": 14}, "shrinktime": "20s"},
+            {"pkg": "clusterx", "run": "^TestC04_Cluster$", "quick": 160, "thorough": 8400, "shards": {"quick": 5, "thorough": 14}, "shrinktime": "20s", "max_per_process": 150},
             {"pkg": "clusterx", "run": "^TestC04_Follower$", "quick": 600, "thorough": 20000, "shards": {"quick": 4, "thorough": 14}, "shrinktime": "20s"},
         ],
         "floors": {"election_triggered": 0.05},
@@ -257,7 +257,7 @@ CHECKS = {
     "C05": {
         "level": "fault_enumeration",
         "tests": [
-            {"pkg": "clusterx", "run": "^TestC05_Cluster$", "quick": 160, "thorough": 8400, "shards": {"quick": 5, "thorough": 14}, "shrinktime": "20s"},
+            {"pkg": "clusterx", "run": "^TestC05_Cluster$", "quick": 160, "thorough": 8400, "shards": {"quick": 5, "thorough": 14}, "shrinktime": "20s", "max_per_process": 150},
             {"pkg": "coordx", "run": "^TestC05_MetaFile$", "quick": 400, "thorough": 24000, "shards": {"quick": 4, "thorough": 16}, "shrinktime": "20s"},
             {"pkg": "leaderx", "run": "^TestC05_TermDurable$", "quick": 1200, "thorough": 60000},
         ],
